@@ -617,14 +617,14 @@ func TestCoreSmoke(t *testing.T) {
 }
 
 var (
-	profC02 = Profile{Name: "C02", Publish: 5, Pull: 6, Ack: 4, Nack: 2, Delay: 2, Advance: 4, Seek: 3, Snap: 3, Maint: 2, Sweep: 1, Churn: 1}
-	profC01 = Profile{Name: "C01", SetDelay: 1, Publish: 6, Pull: 6, Ack: 3, Nack: 2, Delay: 2, Advance: 4, Seek: 1, Snap: 1, Maint: 3, Sweep: 1, Churn: 1}
+	profC02 = Profile{Name: "C02", Update: 1, Publish: 5, Pull: 6, Ack: 4, Nack: 2, Delay: 2, Advance: 4, Seek: 3, Snap: 3, Maint: 2, Sweep: 1, Churn: 1}
+	profC01 = Profile{Name: "C01", Update: 1, SetDelay: 1, Publish: 6, Pull: 6, Ack: 3, Nack: 2, Delay: 2, Advance: 4, Seek: 1, Snap: 1, Maint: 3, Sweep: 1, Churn: 1}
 	profC03 = Profile{Name: "C03", Publish: 5, Pull: 7, Ack: 6, Nack: 4, Delay: 4, Advance: 4, Maint: 1, Sweep: 1, NoSeek: true}
-	profC04 = Profile{Name: "C04", Publish: 4, Pull: 9, Ack: 1, Nack: 3, Delay: 4, Advance: 6, NoSeek: true, NoDL: true}
-	profC05 = Profile{Name: "C05", Publish: 7, Pull: 7, Ack: 5, Nack: 2, Delay: 1, Advance: 4, Maint: 2, Sweep: 1, Seek: 1, Snap: 1, OrderedOnly: true}
-	profC06 = Profile{Name: "C06", Publish: 5, Pull: 8, Ack: 1, Nack: 4, Delay: 2, Advance: 5, Sweep: 3, Churn: 1}
+	profC04 = Profile{Name: "C04", Update: 1, Publish: 4, Pull: 9, Ack: 1, Nack: 3, Delay: 4, Advance: 6, NoSeek: true, NoDL: true}
+	profC05 = Profile{Name: "C05", Update: 1, Publish: 7, Pull: 7, Ack: 5, Nack: 2, Delay: 1, Advance: 4, Maint: 2, Sweep: 1, Seek: 1, Snap: 1, OrderedOnly: true}
+	profC06 = Profile{Name: "C06", Update: 1, Publish: 5, Pull: 8, Ack: 1, Nack: 4, Delay: 2, Advance: 5, Sweep: 3, Churn: 1}
 	profC13 = Profile{Name: "C13", Publish: 6, Pull: 5, Ack: 5, Nack: 1, Advance: 3, Seek: 4, Snap: 5, Maint: 1}
-	profC14 = Profile{Name: "C14", SetDelay: 3, Publish: 5, Pull: 6, Ack: 1, Advance: 8, Seek: 1, Maint: 4, BigAdvance: true}
+	profC14 = Profile{Name: "C14", Update: 1, SetDelay: 3, Publish: 5, Pull: 6, Ack: 1, Advance: 8, Seek: 1, Maint: 4, BigAdvance: true}
 	profC15 = Profile{Name: "C15", Publish: 5, Pull: 6, Ack: 4, Nack: 1, Advance: 5, Maint: 8, Sweep: 1, Churn: 2, Seek: 1, Snap: 1, BigAdvance: true}
 )
 
